@@ -16,8 +16,17 @@ Definition bind {A B} (r : res A) (f : A -> res B) : res B :=
 (* ---- bufio.ScanLines: split at LF, drop one trailing CR of each token; a final
    unterminated non-empty remainder is a token too.  (The 1 MiB token limit is outside
    the model: every modelled input has shorter lines.) *)
+(* List.rev is quadratic; the reader reverses a whole line at once (lines of 70,000 symbols are evaluated by the checks) *)
+Definition frev {A} (l : list A) : list A := rev_append l [].
+Lemma frev_rev {A} (l : list A) : frev l = rev l.
+Proof. unfold frev. symmetry. apply rev_alt. Qed.
 Definition drop_cr_rev (rcur : list N) : list N :=
-  match rcur with 13 :: r => rev r | _ => rev rcur end.
+  match rcur with 13 :: r => frev r | _ => frev rcur end.
+Lemma drop_cr_rev_spec rcur : drop_cr_rev rcur = match rcur with 13 :: r => rev r | _ => rev rcur end.
+Proof.
+  unfold drop_cr_rev. destruct rcur as [|x r]; [reflexivity|]. destruct x as [|p]; [apply frev_rev|].
+  do 4 (destruct p as [p|p|]; try apply frev_rev).
+Qed.
 Fixpoint scan_aux (rcur : list N) (l : list N) : list (list N) :=
   match l with
   | [] => match rcur with [] => [] | _ => [drop_cr_rev rcur] end
